@@ -217,7 +217,7 @@ func arrKeySort(s Sort) Sort {
 }
 
 func Forall(vars []Term, body Term, pats ...[]Term) Term {
-	if len(vars) == 0 {
+	if len(vars) == 0 || body.S == "true" {
 		return body
 	}
 	var b strings.Builder
